@@ -296,6 +296,14 @@ func c04Handler(args []string, data []byte) string {
 			}
 			return "ERR"
 		}
+		if len(args) > 5 && strings.HasPrefix(args[5], "cap:") && dest != nil {
+			// a destination slice that is being reused: some elements in place, spare capacity behind them
+			var l, c int
+			fmt.Sscanf(args[5], "cap:%d:%d", &l, &c)
+			if dv := reflect.ValueOf(dest); dv.Kind() == reflect.Ptr && !dv.IsNil() && dv.Elem().Kind() == reflect.Slice && l <= c {
+				dv.Elem().Set(reflect.MakeSlice(dv.Elem().Type(), l, c))
+			}
+		}
 		return guarded(func() error { _, err := codec.Decode(src, dest, v); return err })
 	}
 	return "FAIL: unknown entry " + entry
@@ -761,7 +769,12 @@ func valueDecodeCase(rt *rapid.T) c04Case {
 	if rapid.IntRange(0, 19).Draw(rt, "null") == 0 {
 		null = "null"
 	}
-	return c04Case{args: []string{"datacodec.Decode", strconv.Itoa(int(v)), hex.EncodeToString(tb), dest, null}, valid: valid, annots: ref.ValueAnnots(dt, valid, v)}
+	args := []string{"datacodec.Decode", strconv.Itoa(int(v)), hex.EncodeToString(tb), dest, null}
+	if rapid.IntRange(0, 2).Draw(rt, "reusedSlice") == 0 {
+		l := rapid.IntRange(0, 4).Draw(rt, "sliceLen")
+		args = append(args, fmt.Sprintf("cap:%d:%d", l, l+rapid.IntRange(0, 9).Draw(rt, "spareCap")))
+	}
+	return c04Case{args: args, valid: valid, annots: ref.ValueAnnots(dt, valid, v)}
 }
 
 // knownC04 maps a panic verdict to an open finding id, if any.
